@@ -135,6 +135,8 @@ theorem applyRes_c06 (cfg : Cfg) (pol : Policy) (step : Nat) (tickEv : Ev) (dc :
     have hle : failedAt ≤ now := hr exc failedAt rfl
     simp only [applyRes]
     split
+    · exact h
+    split
     · rename_i d hd
       intro c hc
       simp only [List.mem_append, List.mem_cons, List.mem_nil_iff, or_false] at hc
